@@ -32,6 +32,8 @@ EXTENDS Integers, Sequences, FiniteSets, TLC
 None == -1000
 NestedKeys == {"n", "output", "variable"}
 NKSeq == <<"n", "output", "variable">>
+ListKey == "l"            \* a context key that holds a list (a mutable object of its own)
+RefKeys == NestedKeys \cup {ListKey}
 Put(c, k, v) == [x \in (DOMAIN c) \cup {k} |-> IF x = k THEN v ELSE c[x]]
 Mut(t, nk, key, x, s, ia) == [t |-> t, nk |-> nk, key |-> key, x |-> x, s |-> s, ia |-> ia]
 Inc(key) == Mut("inc", "", key, 0, "", FALSE)
@@ -41,6 +43,7 @@ SetN(nk, key, x) == Mut("setn", nk, key, x, "", FALSE)
 MakeFn(s) == Mut("setn", "output", "filename", 0, s, TRUE)
 Var(s, x) == Mut("var", "variable", "name", x, s, FALSE)
 Cnt(s) == Mut("cnt", "", s, 0, "", FALSE)
+LApp(x) == Mut("lapp", "", ListKey, x, "", FALSE)      \* user element: context["l"].append(x) (created if absent)
 \* what a nested write stores: MakeFilename and Variable store strings, UpdateContext ints
 Stored(mu) == IF mu.s = "" THEN mu.x ELSE mu.s
 
@@ -60,12 +63,17 @@ AllocNested(M, c, j, m) ==
        IF nk \in DOMAIN c
        THEN AllocNested(NewCell(M, DCell(c[nk])), c, j + 1, [m EXCEPT ![nk] = [ref |-> M.n]])
        ELSE AllocNested(M, c, j + 1, m)
-AllocCtx(M, c) == LET r == AllocNested(M, c, 1, c) IN [M |-> NewCell(r.M, DCell(r.m)), id |-> r.M.n]
+AllocCtx(M, c) == LET r0 == AllocNested(M, c, 1, c)
+                      r == IF ListKey \in DOMAIN c
+                           THEN [M |-> NewCell(r0.M, LCell(c[ListKey])), m |-> [r0.m EXCEPT ![ListKey] = [ref |-> r0.M.n]]]
+                           ELSE r0
+                  IN [M |-> NewCell(r.M, DCell(r.m)), id |-> r.M.n]
 AllocVal(M, x) == LET M1 == NewCell(M, LCell(x.d))
                       r == AllocCtx(M1, x.c)
                   IN [M |-> r.M, v |-> [d |-> M.n, c |-> r.id]]
 SnapCtx(h, id) == LET m == h[id].m IN
-                  [key \in DOMAIN m |-> IF key \in NestedKeys THEN h[m[key].ref].m ELSE m[key]]
+                  [key \in DOMAIN m |-> IF key \in NestedKeys THEN h[m[key].ref].m
+                                        ELSE IF key = ListKey THEN h[m[key].ref].v ELSE m[key]]
 SnapVal(h, v) == [d |-> h[v.d].v, c |-> SnapCtx(h, v.c)]
 DeepCopyVal(M, v) == AllocVal(M, SnapVal(M.h, v))
 DeepCopyCtx(M, id) == AllocCtx(M, SnapCtx(M.h, id))
@@ -73,7 +81,7 @@ DeepCopyCtx(M, id) == AllocCtx(M, SnapCtx(M.h, id))
 ShallowCopyVal(M, v) == LET M1 == NewCell(M, LCell(M.h[v.d].v))
                             M2 == NewCell(M1, DCell(M.h[v.c].m))
                         IN [M |-> M2, v |-> [d |-> M.n, c |-> M1.n]]
-ReachCtx(h, id) == {id} \cup {h[id].m[k].ref : k \in NestedKeys \cap DOMAIN h[id].m}
+ReachCtx(h, id) == {id} \cup {h[id].m[k].ref : k \in RefKeys \cap DOMAIN h[id].m}
 Reach(h, v) == {v.d} \cup ReachCtx(h, v.c)
 
 \* copy.deepcopy of a list of values
@@ -105,8 +113,13 @@ HSetNested(M, cid, mu) ==
        ELSE [M EXCEPT !.h[nid].m = Put(@, mu.key, Stored(mu))]
   ELSE LET M2 == NewCell(M, DCell(Put(<<>>, mu.key, Stored(mu))))
        IN [M2 EXCEPT !.h[cid].m = Put(@, mu.nk, [ref |-> M.n])]
+HListApp(M, cid, x) ==
+  LET m == M.h[cid].m IN
+  IF ListKey \in DOMAIN m THEN [M EXCEPT !.h[m[ListKey].ref].v = Append(@, x)]
+  ELSE LET M2 == NewCell(M, LCell(<<x>>)) IN [M2 EXCEPT !.h[cid].m = Put(@, ListKey, [ref |-> M.n])]
 HApply(M, v, mu) ==
-  CASE mu.t = "inc" -> LET m == M.h[v.c].m IN
+  CASE mu.t = "lapp" -> [M |-> HListApp(M, v.c, mu.x), v |-> v]
+    [] mu.t = "inc" -> LET m == M.h[v.c].m IN
                        [M |-> HSetKey(M, v.c, mu.key, (IF mu.key \in DOMAIN m THEN m[mu.key] ELSE 0) + 1), v |-> v]
     [] mu.t = "app" -> [M |-> [M EXCEPT !.h[v.d].v = Append(@, mu.x)], v |-> v]
     [] mu.t = "set" -> [M |-> HSetKey(M, v.c, mu.key, mu.x), v |-> v]
@@ -127,7 +140,8 @@ PSetNested(c, mu) ==
        ELSE Put(c, mu.nk, Put(c[mu.nk], mu.key, Stored(mu)))
   ELSE Put(c, mu.nk, Put(<<>>, mu.key, Stored(mu)))
 PApply(x, mu) ==
-  CASE mu.t = "inc" -> [x EXCEPT !.c = Put(@, mu.key, (IF mu.key \in DOMAIN x.c THEN x.c[mu.key] ELSE 0) + 1)]
+  CASE mu.t = "lapp" -> [x EXCEPT !.c = Put(@, ListKey, Append((IF ListKey \in DOMAIN x.c THEN x.c[ListKey] ELSE <<>>), mu.x))]
+    [] mu.t = "inc" -> [x EXCEPT !.c = Put(@, mu.key, (IF mu.key \in DOMAIN x.c THEN x.c[mu.key] ELSE 0) + 1)]
     [] mu.t = "app" -> [x EXCEPT !.d = Append(@, mu.x)]
     [] mu.t = "set" -> [x EXCEPT !.c = Put(@, mu.key, mu.x)]
     [] mu.t = "setn" -> [x EXCEPT !.c = PSetNested(@, mu)]
